@@ -49,6 +49,7 @@ func runC08(r *an.Run) {
 	emptiedGroupsAreDropped(r, "R13-emptied-comment-groups-are-dropped")
 	recursiveComparisonsMemoised(r, "R14-recursive-comparisons-are-made-once")
 	noRecursionInTheFrontEnd(r, "R15-no-recursion-outside-the-tree-walkers")
+	loneElisionRejected(r, "R16-a-lone-elision-is-rejected")
 }
 
 func tokenEOF(r *an.Run) int64 {
